@@ -94,6 +94,28 @@ func (dm *DMap) putEntryOnFragment(e *env, nt storage.Entry) error {
 	return nil
 }
 
+// entryValidator is implemented by the storage engines that can check an entry without storing it.
+type entryValidator interface {
+	Validate(storage.Entry) error
+}
+
+// validateEntry returns ErrKeyTooLarge or ErrEntryTooLarge if the storage engine
+// is going to reject the entry.
+func validateEntry(s storage.Engine, nt storage.Entry) error {
+	v, ok := s.(entryValidator)
+	if !ok {
+		return nil
+	}
+	err := v.Validate(nt)
+	if errors.Is(err, storage.ErrKeyTooLarge) {
+		err = ErrKeyTooLarge
+	}
+	if errors.Is(err, storage.ErrEntryTooLarge) {
+		err = ErrEntryTooLarge
+	}
+	return err
+}
+
 func (dm *DMap) prepareEntry(e *env) storage.Entry {
 	nt := e.fragment.storage.NewEntry()
 	nt.SetKey(e.key)
@@ -344,6 +366,12 @@ func (dm *DMap) putOnCluster(e *env) error {
 
 	nt := dm.prepareEntry(e)
 	if dm.s.config.ReplicaCount > config.MinimumReplicaCount {
+		// The replicas store the encoded entry as it is. Reject an invalid entry here,
+		// before it's replicated. Otherwise, the replicas keep an entry that the partition
+		// owner has rejected.
+		if err = validateEntry(f.storage, nt); err != nil {
+			return err
+		}
 		switch dm.s.config.ReplicationMode {
 		case config.AsyncReplicationMode:
 			// Fire and forget mode. Calls PutBackup command in different goroutines
